@@ -76,6 +76,20 @@ def same(ctx_a, a, ctx_b, b) -> bool:
     return same_result_cross(ctx_a, a, ctx_b, b)
 
 
+def ambient() -> dict:
+    """State outside the validator and its input that validations read: the thread's decimal context (without
+    its sticky flags, which arithmetic sets by design), interpreter limits, locale."""
+    import decimal
+    import locale
+    import sys
+    c = decimal.getcontext()
+    return {"decimal.prec": c.prec, "decimal.rounding": c.rounding, "decimal.Emin": c.Emin, "decimal.Emax": c.Emax,
+            "decimal.capitals": c.capitals, "decimal.clamp": c.clamp,
+            "decimal.traps": tuple(sorted(k.__name__ for k, on in c.traps.items() if on)),
+            "recursionlimit": sys.getrecursionlimit(), "int_max_str_digits": sys.get_int_max_str_digits(),
+            "locale": locale.setlocale(locale.LC_ALL)}
+
+
 def check_history(vt, lazy, ops) -> Optional[dict]:
     """One shared instance, a history of calls; every call equals the fresh-instance result;
     inputs and the validator's configuration are never modified."""
@@ -86,10 +100,18 @@ def check_history(vt, lazy, ops) -> Optional[dict]:
     for i, (mode, xt) in enumerate(ops):
         x = to_py(xt, ctx.ct)
         before = freeze(strip_ids(from_py(x, ctx.ct)))
-        try:
-            r = v(x) if mode == "sync" else drive(v.validate_async(x))
-        except Exception as e:  # noqa
-            r = e
+        import decimal
+        with decimal.localcontext():        # whatever a call does to the arithmetic context stays in here
+            amb0 = ambient()
+            try:
+                r = v(x) if mode == "sync" else drive(v.validate_async(x))
+            except Exception as e:  # noqa
+                r = e
+            amb1 = ambient()
+        if amb1 != amb0:
+            diff = {k: (amb0[k], amb1[k]) for k in amb0 if amb0[k] != amb1[k]}
+            return {"signature": "C13:ambient-state-modified",
+                    "what": f"call {i} ({mode}, {x!r}) changed process / thread state that later validations read: {diff!r}"}
         try:
             after = freeze(strip_ids(from_py(x, ctx.ct)))
         except HarnessError:
@@ -218,6 +240,9 @@ def run(tier: str, rng: random.Random, proof_ok: bool) -> dict:
         (("ListV", DEC, [], [], None), [("VList", [G.S("1.5"), G.I(2)]), ("VList", [G.D1])]),
         (("MapV", STRIP, DEC, [("PMaxKeys", 2)], [], None), [("VDict", [P(G.S(" k"), G.S("1"))]), ("VDict", [P(G.S("a"), G.I(1)), P(G.S("b"), G.I(2)), P(G.S("c"), G.I(3))])]),
         (DEC, [G.I(1), G.F1, G.TRUE, G.D1, G.S("1")]),
+        # sources with more digits than the arithmetic context's precision
+        (("Scalar", ("KDecimal",), Some(("CoDecimal",)), [], [("PMultipleOf", G.D1)], []), [G.S("1" + "0" * 40), G.I(10 ** 40), G.S("1e28"), G.S("1.5")]),
+        (("ListV", DEC, [], [], None), [("VList", [G.S("123456789012345678901234567890123.5"), G.I(3)]), ("VList", [G.S("0.1")])]),
         (INT, [G.I(1), G.TRUE, G.F1, G.D1]),
         (("Scalar", ("KStr",), None, [], [], []), [G.I(1), G.TRUE, G.F1, G.S("1")]),
         (("UnionV", [("Scalar", ("KDatetime",), Some(("CoDatetime",)), [], [], []), ("Scalar", ("KStr",), None, [], [], [])]),
